@@ -1,4 +1,5 @@
 use std::error::Error;
+#[cfg(not(feature = "verif-hooks"))]
 use std::thread;
 use std::time::Duration;
 
@@ -8,6 +9,8 @@ use serial_core::prelude::*;
 use flipdot_core::{Frame, Message, SignBus, State};
 
 use crate::serial_port;
+#[cfg(feature = "verif-hooks")]
+use crate::verif_hooks as thread;
 
 /// An implementation of [`SignBus`] that communicates with one or more signs over serial.
 ///
